@@ -57,7 +57,7 @@ static void *mc_malloc(size_t n)
     return p;
 }
 #ifndef MCACHE_SRC
-#define MCACHE_SRC "/repo/hdf/src/mcache.c"
+#define MCACHE_SRC "hdf/src/mcache.c" /* resolved through -I<REPO> (vk.cc_harness) */
 #endif
 #define malloc(n) mc_malloc(n)
 #include MCACHE_SRC
@@ -328,8 +328,19 @@ static void api_sds(void)
             edge[i]  = whole ? dims[i] : (int32)hk_range(1, dims[i] - start[i]);
             n *= edge[i];
         }
-        if (r < 45) { /* write slab */
-            for (j = 0; j < n; j++) a_buf[j] = val++;
+        if (r < 45) { /* write slab; sometimes the values written EQUAL the fill value (a written chunk that happens to
+                         hold only fill values is still a written chunk and must be stored) */
+            int write_fill = hk_chance(25);
+            if (write_fill && hk_chance(60)) { /* cover whole chunks: align the slab to the chunk grid */
+                n = 1;
+                for (i = 0; i < rank; i++) {
+                    start[i] = (start[i] / cdims[i]) * cdims[i];
+                    edge[i]  = cdims[i] * (int32)hk_range(1, 2);
+                    if (start[i] + edge[i] > dims[i]) edge[i] = dims[i] - start[i];
+                    n *= edge[i];
+                }
+            }
+            for (j = 0; j < n; j++) a_buf[j] = write_fill ? fill : val++;
             if (SDwritedata(sds, start, NULL, edge, a_buf) == FAIL) { hk_fail("api-sds-call-failed", "SDwritedata"); break; }
             for (j = 0; j < n; j++) {
                 int rem = j, off = 0, mul = 1;
